@@ -14,8 +14,9 @@
     C19_fragments_compose_when_they_share_no_names (at the end of this file; PrefixRun.v, FragmentsAlone.v, KeysOK.v) is
     the property with its own hypothesis: P1 alone terminates normally, P2 mentions none of the names P1 declares -- then
     P1;P2 passes through P1's final machine on P2's first statement and ends like P2 alone. *)
-From Pakhi Require Import Base Float64 Syntax Tables Lexer Interp.
+From Pakhi Require Import Base Float64 Syntax Tables Lexer Interp Parser.
 From Pakhi.Proofs Require Import Scope Control GCMark GCSweep WF WFOps Frames FrameInv Sim2Defs Sim2 Compose TopLevel Fragments PrefixRun FragmentsAlone KeysOK.
+From Pakhi.Proofs Require Import Findings.
 Local Open Scope nat_scope.
 
 Theorem C19_control_state_is_neutral_between_fragments : forall code, code_ok code -> forall platform w fuel sched, code <> [] ->
@@ -172,3 +173,11 @@ Theorem C19_bound_names_are_declared_names : forall code, code_ok code -> forall
   let m := snd (run code fuel sched 0 (init_machine platform w)) in K1 D m /\ K2 platform m.
 Proof. exact bound_names_are_declared_names. Qed.
 Print Assumptions C19_bound_names_are_declared_names.
+
+(* finding D29: P1 imports a file under the name ক, P2 the same file under ক/খ; both load alone, P1;P2 ends in the cyclic-dependency error *)
+Theorem C19_composition_is_refuted_for_extending_import_names :
+  loads (front d29_fs d29_cwd d29_main 2000 d29_p1) = true /\
+  loads (front d29_fs d29_cwd d29_main 2000 d29_p2) = true /\
+  is_cyclic_error (front d29_fs d29_cwd d29_main 2000 (d29_p1 ++ d29_p2)) = true.
+Proof. exact slash_import_name_refutes_composition. Qed.
+Print Assumptions C19_composition_is_refuted_for_extending_import_names.
